@@ -4,16 +4,14 @@ import (
 	"bytes"
 	"context"
 	"fmt"
-	"io"
+	"runtime/debug"
 	"strconv"
 	"strings"
 	"sync"
 	"time"
 
-	"fortio.org/log"
 	"grol.io/grol/ast"
 	"grol.io/grol/eval"
-	"grol.io/grol/extensions"
 	"grol.io/grol/lexer"
 	"grol.io/grol/object"
 	"grol.io/grol/parser"
@@ -31,18 +29,6 @@ import (
 
 func init() {
 	suites["eval"] = suite{gen: evalGen, run: evalRun}
-}
-
-var extInit sync.Once
-
-func initExtensions() {
-	extInit.Do(func() {
-		log.SetLogLevelQuiet(log.Fatal)
-		log.SetOutput(io.Discard)
-		if err := extensions.Init(nil); err != nil {
-			panic(err)
-		}
-	})
 }
 
 type evalOpts struct {
@@ -151,8 +137,12 @@ func astOf(text string) string {
 	return sb.String()
 }
 
+var memLimitOnce sync.Once
+
 func evalRun(input string) string {
 	initExtensions()
+	// "with a process memory limit configured": the allocation guard compares requests with GOMEMLIMIT
+	memLimitOnce.Do(func() { debug.SetMemoryLimit(256 << 20) })
 	parts := strings.SplitN(input, ";", 3)
 	if len(parts) != 3 {
 		return "BAD"
@@ -211,6 +201,6 @@ func evalGen(tier string, r *rng, emit func(string)) {
 		for j, t := range texts {
 			hs[j] = hx(t)
 		}
-		emit(prop + ";;" + strings.Join(hs, "|"))
+		emit(prop + ";steps=200000;" + strings.Join(hs, "|"))
 	}
 }
